@@ -71,13 +71,44 @@ Theorem C09_copy_sub_shape : forall t ids t' rest,
 Proof. exact copy_sub_shape. Qed.
 Print Assumptions C09_copy_sub_shape.
 
-(* non-vacuity: the copies of the demo history re-draw identifiers and have the shape of their sources *)
+(* the premises hold in every state reached by a fresh two-workspace history, for every subtree (audit 2, A15) *)
+Theorem C09_well_kinded_run : forall ops i e s, wfresh_run ops winit = true ->
+  find e (wmem (wsel i (wrun ops winit))) = Some s -> well_kinded s.
+Proof. exact well_kinded_run. Qed.
+Print Assumptions C09_well_kinded_run.
+
+Theorem C09_pgs_ok_run : forall ops i e s, wfresh_run ops winit = true ->
+  find e (wmem (wsel i (wrun ops winit))) = Some s -> forall r, In r (rows s) -> pgs_ok r.
+Proof. exact pgs_ok_run. Qed.
+Print Assumptions C09_pgs_ok_run.
+
+(* hence, for sources taken from reachable states, only the uniqueness of the copy's identifiers remains as a premise
+   (it follows from fresh drawn identifiers, C09_copy_x_shape_fresh) *)
+Theorem C09_copy_x_shape_run : forall ops i e s used pgused ids t' u' pu' rest, wfresh_run ops winit = true ->
+  find e (wmem (wsel i (wrun ops winit))) = Some s ->
+  copy_x used pgused s ids = Some (t', u', pu', rest) -> NoDup (keys_of t') ->
+  erase t' = erase s.
+Proof. exact copy_x_shape_run. Qed.
+Print Assumptions C09_copy_x_shape_run.
+
+Theorem C09_copy_sub_shape_run : forall ops i e s ids t' rest, wfresh_run ops winit = true ->
+  find e (wmem (wsel i (wrun ops winit))) = Some s ->
+  copy_sub s ids = Some (t', rest) -> NoDup (keys_of t') ->
+  erase t' = erase s.
+Proof. exact copy_sub_shape_run. Qed.
+Print Assumptions C09_copy_sub_shape_run.
+
+(* non-vacuity by INSTANTIATING the premises of C09_copy_x_shape_run (not by evaluating its conclusion): the second copy of
+   the demo history -- the source G1 is found in the state reached after 7 fresh steps, the copy is what copy_x computes with
+   the identifiers in use in B (every identifier re-drawn), its keys are distinct; the shape equality is then the theorem's *)
 Example C09W_nonvacuous :
-  copyx_keys (wa (wrun (firstn 7 wops_demo) winit)) (wb (wrun (firstn 7 wops_demo) winit)) (KG, 1%N) [30; 31; 32; 33; 34]%N
-  = [(KG, 30%N); (KO, 31%N); (KD, 32%N); (KD, 33%N)] /\
-  match find (KG, 1%N) (wmem (wa (wrun (firstn 7 wops_demo) winit))),
-        find (KG, 30%N) (wmem (wb (wrun (firstn 8 wops_demo) winit))) with
-  | Some s, Some c => erase c = erase s
-  | _, _ => False
+  match find (KG, 1%N) (wmem (wa (wrun (firstn 7 wops_demo) winit))) with
+  | Some s =>
+      match copy_x (map snd (keys_of (wmem (wb (wrun (firstn 7 wops_demo) winit)))))
+                   (all_pg_ids (wmem (wb (wrun (firstn 7 wops_demo) winit)))) s [30; 31; 32; 33; 34]%N with
+      | Some (t', _, _, _) => keys_of t' = [(KG, 30%N); (KO, 31%N); (KD, 32%N); (KD, 33%N)] /\ erase t' = erase s
+      | None => False
+      end
+  | None => False
   end.
-Proof. split; [apply wops_demo_ids | exact wops_demo_shape]. Qed.
+Proof. exact wops_demo_shape_inst. Qed.
